@@ -12,7 +12,7 @@
    `reachable s` = s is the state after some op sequence from `init capacity`.
    The guard lives in the future: "a handshake ends" = the AcceptFut is dropped, which `.await`
    does in the same step in which poll returned Ready. *)
-From AN Require Import Model.TlsAccept Proofs.TlsAcceptFacts.
+From AN Require Import Model.TlsAccept Proofs.TlsAcceptFacts Proofs.TlsNativeFacts.
 From Coq Require Import Lia.
 
 (* One poll of a live, unfinished accept future, completely: the handshake is polled (first, and
@@ -143,6 +143,36 @@ Proof. exact call_acquires. Qed.
 Theorem C18_invariant : forall s, reachable s -> Inv s.
 Proof. exact reachable_inv. Qed.
 
+(* ---- the native-tls acceptor (accept/native_tls.rs): an async block instead of an AcceptFut struct.  Its runs are runs of the
+   same model on the transformed script (Model/TlsAccept.v, Section Native); [is_native id] says which futures are native-tls
+   ones, so one worker thread may mix back-ends.  Every theorem above about reachable states therefore holds of it too; what
+   differs is stated exactly: the slot is free again inside the poll that completes, and the handshake deadline counts from the
+   FIRST POLL of the future (a future nobody polls has no deadline). *)
+Theorem C18_native_is_run : forall is_native ops s,
+  run_ops s (native_script is_native s ops)
+  = (fst (native_run is_native s ops), concat (snd (native_run is_native s ops))).
+Proof. exact native_run_is_run. Qed.
+Theorem C18_native_invariant : forall is_native c ops, Inv (fst (native_run is_native (init c) ops)).
+Proof. exact native_run_inv. Qed.
+Theorem C18_native_release_at_completion : forall is_native s id w,
+  reachable s -> is_native id = true -> ready_poll (snd (step s (PollFut id w))) = true ->
+  lookup id (futs (fst (native_step is_native s (PollFut id w)))) = None /\
+  count (fst (native_step is_native s (PollFut id w))) = count s - 1 /\
+  S (length (futs (fst (native_step is_native s (PollFut id w))))) = length (futs s).
+Proof. exact native_release_at_completion. Qed.
+Theorem C18_native_pending_holds : forall is_native s id w,
+  ready_poll (snd (step s (PollFut id w))) = false ->
+  native_step is_native s (PollFut id w) = step s (PollFut id w).
+Proof. exact native_pending_poll_is_step. Qed.
+Theorem C18_native_deadline_first_poll : forall is_native pre w post s id sc tmo,
+  reachable s -> is_native id = true -> lookup id (futs s) = None -> forallb (quiet id) pre = true ->
+  exists pre', shift_calls is_native (Call id sc tmo :: pre ++ PollFut id w :: post)
+               = Call id sc (tmo + total_advance pre) :: pre' ++ shift_calls is_native (PollFut id w :: post) /\
+    exists f, lookup id (futs (fst (native_run is_native s (Call id sc (tmo + total_advance pre) :: pre')))) = Some f /\
+              f_deadline f = now (fst (native_run is_native s (Call id sc (tmo + total_advance pre) :: pre'))) + tmo /\
+              f_done f = false /\ f_script f = sc.
+Proof. exact native_deadline_first_poll. Qed.
+
 (* ------------------------------------------------------------------ non-vacuity *)
 (* capacity 1, timeout 3000: second caller parked; client stalls; timer fires at 3000 exactly; the
    woken poll returns Timeout; dropping the future wakes the parked caller; then the gate is open *)
@@ -175,6 +205,21 @@ Proof.
   vm_compute. repeat split. eexists. repeat split. discriminate.
 Qed.
 
+(* native-tls: called at 0, first polled at 700 with handshake_timeout 1000 — the deadline is 1700, not 1000; the poll that
+   completes at 1700 also frees the slot (the parked caller 2 is woken by that poll, no drop needed) *)
+Example C18_ex_native :
+  let ops := shift_calls (fun _ => true)
+               [Call 0 [HPending; HPending; HPending] 1000%N; PollReady 2; Advance 700%N; PollFut 0 3; Advance 400%N;
+                PollFut 0 5; Advance 600%N; PollFut 0 7; PollReady 8] in
+  ops = [Call 0 [HPending; HPending; HPending] 1700%N; PollReady 2; Advance 700%N; PollFut 0 3; Advance 400%N;
+         PollFut 0 5; Advance 600%N; PollFut 0 7; PollReady 8]
+  /\ snd (native_run (fun _ => true) (init 1%N) ops)
+     = [[ObsCalled 0 1700%N]; [ObsReady false; ObsParked 2]; [];
+        [ObsHs 0 HPending; ObsTimerReg 0 3 1700%N; ObsPoll 0 Pending]; [];
+        [ObsHs 0 HPending; ObsTimerReg 0 5 1700%N; ObsPoll 0 Pending]; [ObsWake 5];
+        [ObsHs 0 HPending; ObsPoll 0 (Ready OTimeout); ObsWake 2]; [ObsReady true]].
+Proof. vm_compute. split; reflexivity. Qed.
+
 Print Assumptions C18_outcome.
 Print Assumptions C18_outcome_once.
 Print Assumptions C18_outcome_stable.
@@ -194,3 +239,8 @@ Print Assumptions C18_gate_drop_silent.
 Print Assumptions C18_guard_held.
 Print Assumptions C18_call_acquires.
 Print Assumptions C18_invariant.
+Print Assumptions C18_native_is_run.
+Print Assumptions C18_native_invariant.
+Print Assumptions C18_native_release_at_completion.
+Print Assumptions C18_native_pending_holds.
+Print Assumptions C18_native_deadline_first_poll.
